@@ -672,7 +672,7 @@ def _ok_obs(obs):
 def nontrivial(case, obs):
     if not _ok_obs(obs) or len(obs) < 2:
         return False
-    per = obs[0][4]
+    per = obs[0][0][4]          # obs = [per-writing observables, rewriting flags]; base writing first
     return bool(per) and per[0][0] >= 2 and per[0][3] >= 1
 
 
@@ -690,7 +690,7 @@ def distribution(cases, obss):
         d["modes"][c.get("mode", "E")] = d["modes"].get(c.get("mode", "E"), 0) + 1
         k = "backward" if c.get("invert") else "forward"
         d["direction"][k] = d["direction"].get(k, 0) + 1
-        for v, vo in zip([c["variants"][i] for i in _model_variants(c)], o):
+        for v, vo in zip([c["variants"][i] for i in _model_variants(c)], o[0]):
             kind = v["v"]
             d["variant_kinds"][kind] = d["variant_kinds"].get(kind, 0) + 1
             d["variants_total"] += 1
@@ -707,7 +707,7 @@ def distribution(cases, obss):
                 d["comp_smaller_than_all"] += per["comp"][1] < per["all"][1]
                 if "bt" in per:
                     d["bt_fallback"] += per["comp"][0] == 0 and per["bt"][0] > 0
-        if o[0][4] and o[0][4][0][3] == 0:
+        if o[0][0][4] and o[0][0][4][0][3] == 0:
             d["empty_base"] += 1
         tn = ((pre.get("vs") or [[None, [[], []]]])[0][1])[0]
         hs = str(min(((pre.get("cost") or {}).get("host", 0)) // 10 * 10, 90))
